@@ -233,12 +233,22 @@ func Run(cfg *hx.Config) error {
 	if err != nil {
 		return err
 	}
+	nbroken := 0
 	emit := func(kind string, ops []hx.T, tags []string) error {
 		obs, nt, err := Exec(n, ops)
+		note := ""
 		if err != nil {
-			return fmt.Errorf("case %d (%s): %v", cfg.Emitted(), kind, err)
+			// the implementation stopped answering (a sentinel or barrier timed out): emit an
+			// observation no model produces (a connection listed twice) so that the case is
+			// reported and shrunk like any other; give up when it keeps happening
+			nbroken++
+			if nbroken > 5 {
+				return fmt.Errorf("case %d (%s): %v (giving up after %d broken cases)", cfg.Emitted(), kind, err, nbroken)
+			}
+			note = err.Error()
+			obs = hx.Pair{A: []any{hx.Pair{A: int64(0), B: []any{}}, hx.Pair{A: int64(0), B: []any{}}}, B: []any{}}
 		}
-		cfg.Emit(hx.Case{Kind: kind, Ops: ops, Obs: obs, Nontrivial: nt, Tags: tags})
+		cfg.Emit(hx.Case{Kind: kind, Ops: ops, Obs: obs, Nontrivial: nt, Tags: tags, Note: note})
 		return nil
 	}
 	if cfg.In != "" {
